@@ -2,9 +2,16 @@
 
 package fusemanager
 
-import "github.com/containerd/stargz-snapshotter/snapshot"
+import (
+	"context"
+
+	"github.com/containerd/stargz-snapshotter/snapshot"
+)
 
 // verifOverrideFS is a no-op unless built with -tags verif (see verif_export.go).
 func verifOverrideFS(_ *Server, fs snapshot.FileSystem, err error) (snapshot.FileSystem, error) {
 	return fs, err
 }
+
+// verifPoint marks a sub-step boundary of Mount/Unmount; no-op unless built with -tags verif.
+func verifPoint(_ context.Context, _ string) {}
